@@ -3,7 +3,7 @@ Model: Cubic.tla over the width-parametric field: TLC checks, for every pair of 
 operand from a generating subset), that the code's Karatsuba-style product equals the definition, ring laws, that the
 closed-form inverse multiplies to one for all 2,196 non-zero elements, batch inversion = element-wise inversion, and the
 is-one predicate.  Conformance: every scalar overload of the compiled library (ext/ext, ext/base, base/ext, ext/integer,
-division by a base element, decimal-string scalar, square, neg, inv, batchInverse lengths 1..64(quick)/2000(thorough),
+division by a base element, decimal-string scalar, square, neg, inv, batchInverse lengths 1..2050 (quick) / ..5000 (thorough),
 is-one, conversions) with whole-object aliasing patterns on corner and seeded coefficient triples in all representations;
 Trace_Cubic recomputes by schoolbook over the limb field and checks inverse certificates."""
 import os, json
@@ -50,7 +50,7 @@ def gen_cases(seed, tier):
     for v in corner + [5, 7]:
         cs.append(('isone', 1, v, 0, 0, 0, 0)); cs.append(('isone', 1, 0, v, 0, 0, 0)); cs.append(('isone', v, 0, 0, 0, 0, 0))
         cs.append(('isone', 1, v, v, 0, 0, 0))
-    lens = [1, 2, 3, 4, 5, 8, 16, 33, 64] if tier == 'quick' else [1, 2, 3, 4, 5, 8, 16, 33, 64, 127, 500, 1024, 1025, 2049]
+    lens = [1, 2, 3, 4, 5, 8, 16, 33, 64, 1025, 2050] if tier == 'quick' else [1, 2, 3, 4, 5, 8, 16, 33, 64, 127, 500, 1024, 1025, 2049, 4097, 5000]
     for ln in lens:
         cs.append(('batchinv', ln, rng.next()))
     return cs
